@@ -135,3 +135,63 @@ Example C05_no_wildcard_applies :
     map (fun e => match e with TOutput ocs => map fst ocs | _ => [] end) (b_exprs b') =
       [[[112; 46; 105; 100]; [112; 46; 110; 97; 109; 101]; [112; 46; 115; 116]; [112; 46; 122]]]%N.
 Proof. eexists. eexists. split; [vm_compute; reflexivity|]. split; vm_compute; reflexivity. Qed.
+
+(* (d, continued) The name hypotheses of C05_no_wildcard hold for everything
+   the parser produces.  '*' is not a name character; an identifier is a run of
+   name characters or a quoted literal (which ends with its quote), so it never
+   ends in '*'; parseIdentifierAsterisk returns "*" or an identifier; a
+   function-call column ends with ')'. *)
+From SQLair.Proofs Require Import ParserNames.
+
+Theorem C05_star_not_name_char : isNameChar 42 = false.
+Proof. exact star_not_namechar. Qed.
+Print Assumptions C05_star_not_name_char.
+
+Theorem C05_identifier_no_star :
+  forall st st' id, parseIdentifier st = (st', Ok id) -> no_star_end id.
+Proof. exact parseIdentifier_name. Qed.
+Print Assumptions C05_identifier_no_star.
+
+Theorem C05_identifier_asterisk :
+  forall st st' id, parseIdentifierAsterisk st = (st', Ok id) -> id = star \/ no_star_end id.
+Proof. exact parseIdentifierAsterisk_name. Qed.
+Print Assumptions C05_identifier_asterisk.
+
+Theorem C05_parser_names_no_star :
+  forall inp segs,
+    parse inp = Ok segs ->
+    forall raw cols targets, In (Output raw cols targets) segs ->
+      Forall (fun c => columnName c = star \/ no_star_end (columnName c)) cols /\
+      Forall (fun t => mname t = star \/ no_star_end (mname t)) targets.
+Proof. exact parser_names_no_star. Qed.
+Print Assumptions C05_parser_names_no_star.
+
+(* End to end: in a query that was parsed and prepared, no typed output
+   expression has a column that is "*" or ends in '*'. *)
+Theorem C05_no_wildcard_parsed :
+  forall env inp segs samples tbe,
+    parse inp = Ok segs ->
+    bind_types env segs samples = BOk tbe ->
+    forall ocs, In (TOutput ocs) tbe -> Forall clean_oc ocs.
+Proof. exact no_wildcard_parsed. Qed.
+Print Assumptions C05_no_wildcard_parsed.
+
+(* "SELECT p.* AS &P.*, count(*) AS &M.n, t."a*" AS &M.q FROM t": the three
+   output expressions are accepted; the columns written are the db tags of P,
+   the function call, and the quoted name. *)
+Example C05_no_wildcard_parsed_applies :
+  let inp := [83; 69; 76; 69; 67; 84; 32; 112; 46; 42; 32; 65; 83; 32; 38; 80; 46; 42; 44; 32;
+              99; 111; 117; 110; 116; 40; 42; 41; 32; 65; 83; 32; 38; 77; 46; 110; 44; 32;
+              116; 46; 34; 97; 42; 34; 32; 65; 83; 32; 38; 77; 46; 113; 32; 70; 82; 79; 77; 32;
+              116]%N in
+  exists segs tbe,
+    parse inp = Ok segs /\ bind_types ex_env segs [Some 0; Some 4] = BOk tbe /\
+    map (fun e => match e with Output _ cols _ => map columnName cols | _ => [] end) segs =
+      [[]; [star]; []; [[99; 111; 117; 110; 116; 40; 42; 41]]; []; [[34; 97; 42; 34]]; []]%N /\
+    map (fun e => match e with TOutput ocs => map fst ocs | _ => [] end) tbe =
+      [[]; [[112; 46; 105; 100]; [112; 46; 110; 97; 109; 101]; [112; 46; 115; 116]; [112; 46; 122]];
+       []; [[99; 111; 117; 110; 116; 40; 42; 41]]; []; [[116; 46; 34; 97; 42; 34]]; []]%N.
+Proof.
+  eexists. eexists. split; [vm_compute; reflexivity|]. split; [vm_compute; reflexivity|].
+  split; vm_compute; reflexivity.
+Qed.
